@@ -321,6 +321,9 @@ def contract_args(self, contract: Contract, key, recv, args, kwargs, st):
         else:
             raise Unsupported(f"missing argument {n} for {contract.key}")
         ty = contract.params[n]
+        so = getattr(self.reg, "str_of", {}).get(getattr(getattr(v, "ty", None), "name", None)) if isinstance(v, Val) else None
+        if so is not None and ty == STR:
+            v = Val(so(v), STR)
         if isinstance(v, ExcVal) and isinstance(ty, Atom):
             v = v.fields["payload"] if "payload" in v.fields and isinstance(v.fields["payload"], Val) and v.fields["payload"].ty == ty else mk_fresh(ty, "excobj")
         if isinstance(v, ObjRef) and not isinstance(ty, ObjT) and self.has_field(v, "view"):
@@ -745,6 +748,11 @@ def do_isinstance(self, st, v, cls):
             return [(OK, st, Val(b, BOOL))]
         return [(OK, st, boolval(False))]
     if isinstance(v, Val):
+        hook = getattr(self.reg, "isinstance_hooks", {}).get(getattr(v.ty, "name", None))
+        if hook is not None:
+            t = hook(v, names)
+            if t is not None:
+                return [(OK, st, Val(t, BOOL))]
         pyname = {STR: "str", INT: "int", REAL: "float", BOOL: "bool"}.get(v.ty)
         if pyname is None and isinstance(v.ty, (Record, Enum)):
             pyname = v.ty.name
@@ -810,6 +818,10 @@ def value_method(self, st, recv, name, args, kwargs, lv):
     if isinstance(ty, Opt):
         recv = self.unwrap_opt(st, recv, f".{name}()")
         ty = recv.ty
+    str_of = getattr(self.reg, "str_of", {}).get(getattr(ty, "name", None))
+    if str_of is not None and name in ("startswith", "endswith", "encode", "isdigit"):
+        recv = Val(str_of(recv), STR)     # an object that is used as a string: its text
+        ty = STR
 
     def store(newterm):
         if lv is None:
@@ -912,6 +924,8 @@ def value_method(self, st, recv, name, args, kwargs, lv):
         if name == "clear":
             store(ty.empty())
             return [(OK, st, NONE)]
+        if name == "move_to_end":
+            return [(OK, st, NONE)]     # order of an OrderedDict is not part of the map view
         if name == "keys":
             return [(OK, st, ops.set_keys(recv))]
         if name == "items":
